@@ -8,14 +8,27 @@
 // subsequence of the hand-off sequence in hand-off order; the number of absent
 // lines must equal the slow_conn drop counter delta and direction=out must equal
 // the number of lines received.
+//
+// Group cases: 3-6 such destinations (pickle mode mostly) are active at the same
+// time in this one process, each with its own table, route, loopback endpoint and
+// dispatcher goroutine(s), small io buffers (frames straddle them), endpoints that
+// stop reading for a few tens of ms now and then (writes block half done and
+// resume; the connection stays up). Every endpoint's stream must satisfy the same
+// oracle for the lines handed to ITS destination; a well-formed line/frame of
+// another destination is reported under its own signature (foreign-line).
 package main
 
 import (
 	"bytes"
 	"encoding/binary"
 	"fmt"
+	"io"
+	"math"
 	"os"
+	"regexp"
+	"runtime"
 	"runtime/pprof"
+	"strconv"
 	"strings"
 	"sync"
 	"time"
@@ -34,6 +47,85 @@ type ccase struct {
 	Lines   int    `json:"lines"`
 	MaxLen  int    `json:"max_line_len"`
 	Pattern string `json:"pattern"`
+
+	// group cases only: this destination is one of several active at the same time in the process
+	Group       int   `json:"group,omitempty"`       // 1-based group number
+	Members     []int `json:"members,omitempty"`     // Index of every destination of the group
+	Dispatchers int   `json:"dispatchers,omitempty"` // goroutines handing lines to this destination (line i by goroutine i%n)
+	PauseEvery  int   `json:"pause_every_ms,omitempty"`
+	PauseFor    int   `json:"pause_for_ms,omitempty"`
+	RcvBuf      int   `json:"rcvbuf,omitempty"`
+	Procs       int   `json:"gomaxprocs,omitempty"` // while the group runs (same for all its destinations)
+}
+
+// groupBase is the Index of the first destination of the first group (single cases have smaller indexes).
+const (
+	groupBase   = 100000
+	groupStride = 8
+)
+
+// genGroup: the destinations of group g (0-based): 3-6, pickle mode mostly (at least two), small io buffers around
+// the size of a line/frame, endpoints with a small receive buffer that pause reading now and then.
+func genGroup(g int) []ccase {
+	r := mon.NewRng(mon.Seed(), 6, uint64(g))
+	k := r.Range(3, 6)
+	procs := r.PickInt([]int{2, 2, 3, 4})
+	cs := make([]ccase, k)
+	members := make([]int, k)
+	for j := range members {
+		members[j] = groupBase + g*groupStride + j
+	}
+	for j := range cs {
+		c := ccase{Index: members[j], Group: g + 1, Members: members, Procs: procs}
+		c.Pickle = j < 2 || r.Chance(2, 3)
+		c.IoBuf = r.PickInt([]int{24, 48, 64, 100, 100, 150, 150, 256, 512})
+		c.ConnBuf = r.PickInt([]int{2000, 30000, 30000})
+		c.Flush = r.PickInt([]int{1, 10, 100})
+		c.Lines = mon.N(1500, 6000)
+		c.MaxLen = 2 * c.IoBuf
+		if c.MaxLen < 60 {
+			c.MaxLen = 60
+		}
+		if c.MaxLen > 400 {
+			c.MaxLen = 400
+		}
+		c.Pattern = r.Pick([]string{"burst", "mixed", "mixed"})
+		c.Dispatchers = 1
+		if r.Chance(1, 3) {
+			c.Dispatchers = 2
+		}
+		if j == 0 || r.Chance(3, 4) {
+			c.PauseEvery = r.Range(5, 40)
+			c.PauseFor = r.Range(1, 25)
+			c.RcvBuf = r.PickInt([]int{4096, 8192, 16384})
+		}
+		cs[j] = c
+	}
+	return cs
+}
+
+// barrier lets the destinations of a group start their hand-off together. Every member arrives exactly once
+// (a member that gives up early arrives when it returns), so nobody waits for ever.
+type barrier struct {
+	wg sync.WaitGroup
+}
+
+type member struct {
+	b    *barrier
+	once sync.Once
+}
+
+func (m *member) arrive() {
+	if m != nil {
+		m.once.Do(m.b.wg.Done)
+	}
+}
+
+func (m *member) arriveAndWait() {
+	if m != nil {
+		m.arrive()
+		m.b.wg.Wait()
+	}
 }
 
 func gen(idx int) ccase {
@@ -104,8 +196,9 @@ func mkLine(c ccase, r *mon.Rng, i int) []byte {
 	return []byte(base + tail)
 }
 
-func runCase(res *mon.Result, c ccase) {
-	mode := mon.Mode{}
+func runCase(res *mon.Result, c ccase, m *member) {
+	defer m.arrive()
+	mode := mon.Mode{RcvBuf: c.RcvBuf}
 	if c.Pattern == "stall" {
 		mode.RcvBuf = 8192
 	}
@@ -168,62 +261,148 @@ func runCase(res *mon.Result, c ccase) {
 		handed[i] = mkLine(c, r, i)
 		index[string(handed[i][:bytes.IndexByte(handed[i], ' ')])] = i
 	}
-	// hand off
-	burst := 0
-	for i, l := range handed {
-		buf := append([]byte(nil), l...)
-		rt.Dispatch(buf)
-		if c.Pattern == "stall" && i == len(handed)/10 {
-			stalled := mode
-			stalled.NoRead = true
-			ep.SetMode(stalled)
-		}
-		switch c.Pattern {
-		case "trickle":
-			if i%7 == 0 {
-				time.Sleep(time.Duration(r.Intn(3)) * time.Millisecond)
+	// the destinations of a group start together
+	m.arriveAndWait()
+	// group cases: the endpoint stops reading for a moment now and then, until the stream is complete (the connection
+	// stays open, a write that blocked half done is resumed)
+	pauses := 0
+	stopPauser := func() {}
+	if c.PauseEvery > 0 {
+		stop := make(chan struct{})
+		exited := make(chan struct{})
+		rp := mon.NewRng(mon.Seed(), 57, uint64(c.Index))
+		go func() {
+			defer close(exited)
+			nap := func(ms int) bool {
+				select {
+				case <-stop:
+					return false
+				case <-time.After(time.Duration(ms) * time.Millisecond):
+					return true
+				}
 			}
-		case "mixed":
-			if burst == 0 {
-				burst = r.Range(1, 400)
-				time.Sleep(time.Duration(r.Intn(c.Flush+2)) * time.Millisecond)
+			for nap(rp.Range(c.PauseEvery/2+1, c.PauseEvery*3/2+1)) {
+				paused := mode
+				paused.NoRead = true
+				ep.SetMode(paused)
+				pauses++
+				ok := nap(rp.Range(1, c.PauseFor))
+				ep.SetMode(mode)
+				if !ok {
+					return
+				}
 			}
-			burst--
+		}()
+		var once sync.Once
+		stopPauser = func() {
+			once.Do(func() {
+				close(stop)
+				<-exited
+				ep.SetMode(mode)
+			})
 		}
+	}
+	defer stopPauser() // before the route is deleted (its shutdown flushes)
+
+	tHand := time.Now()
+	// hand off: line i by dispatcher i%nd, each dispatcher in increasing order
+	ndisp := c.Dispatchers
+	if ndisp < 1 {
+		ndisp = 1
+	}
+	handOff := func(who int, r *mon.Rng) {
+		burst := 0
+		for i := who; i < len(handed); i += ndisp {
+			buf := append([]byte(nil), handed[i]...)
+			rt.Dispatch(buf)
+			if c.Pattern == "stall" && i == len(handed)/10 {
+				stalled := mode
+				stalled.NoRead = true
+				ep.SetMode(stalled)
+			}
+			switch c.Pattern {
+			case "trickle":
+				if i%7 == 0 {
+					time.Sleep(time.Duration(r.Intn(3)) * time.Millisecond)
+				}
+			case "mixed":
+				if burst == 0 {
+					burst = r.Range(1, 400)
+					time.Sleep(time.Duration(r.Intn(c.Flush+2)) * time.Millisecond)
+				}
+				burst--
+			}
+		}
+	}
+	if ndisp == 1 {
+		handOff(0, r)
+	} else {
+		var hw sync.WaitGroup
+		for who := 0; who < ndisp; who++ {
+			hw.Add(1)
+			go func(who int) {
+				defer hw.Done()
+				handOff(who, mon.NewRng(mon.Seed(), 58+uint64(who), uint64(c.Index)))
+			}(who)
+		}
+		hw.Wait()
 	}
 	if c.Pattern == "stall" {
 		time.Sleep(time.Duration(r.Range(300, 800)) * time.Millisecond)
 		ep.SetMode(mode)
 		res.Count("stalls", 1)
 	}
-	// quiescence by steps: received + dropped == handed (stream parsed incrementally)
-	var got [][]byte
+	tDrain := time.Now()
+	// quiescence by steps: received + dropped == handed (stream parsed incrementally). Every step flushes the
+	// destination; the wait ends without completion only after a long run of steps in which nothing arrived and no
+	// counter moved although every flush returned (then lines are neither on their way nor counted)
+	var got []unit
 	var perr string
 	var pending []byte
 	off := base
 	nbytes := 0
 	done := false
-	for step := 0; step < 4000; step++ {
+	idle := 0
+	var lastSlow int64 = -1
+	for step := 0; step < 60000 && idle < idleSteps; step++ {
 		dest.Flush()
 		nd := conns[0].DataFrom(off)
 		off += len(nd)
 		nbytes += len(nd)
 		pending = append(pending, nd...)
-		var units [][]byte
+		var units []unit
 		var used int
 		units, used, perr = parse(pending, c.Pickle)
+		for len(got) == 0 && len(units) > 0 && bytes.HasPrefix(units[0].name, []byte("verifprobe.c05.")) {
+			// a probe line (handed off before the baseline) that reached the endpoint only now
+			units = units[1:]
+		}
 		got = append(got, units...)
 		pending = pending[used:]
 		if perr != "" {
 			break
 		}
-		if int64(len(got))+d.Get(mon.KeyDestDropSlowConn(dkey)) >= int64(len(handed)) && len(nd) == 0 {
+		slow := d.Get(mon.KeyDestDropSlowConn(dkey))
+		if int64(len(got))+slow >= int64(len(handed)) && len(nd) == 0 {
 			done = true
 			break
 		}
+		if len(nd) == 0 && slow == lastSlow {
+			idle++
+		} else {
+			idle = 0
+		}
+		lastSlow = slow
 		time.Sleep(2 * time.Millisecond)
 	}
-	if perr == "" && len(pending) > 0 {
+	stopPauser()
+	if c.Group > 0 {
+		fmt.Printf("case %d: hand-off %.1fs, drain %.1fs, %d received, %d dropped, %d pauses, done=%v\n", c.Index, tDrain.Sub(tHand).Seconds(), time.Since(tDrain).Seconds(), len(got), d.Get(mon.KeyDestDropSlowConn(dkey)), pauses, done)
+	}
+	if c.PauseEvery > 0 {
+		res.Count("group_endpoint_pauses", pauses)
+	}
+	if perr == "" && len(pending) > 0 && (done || idle >= idleSteps) {
 		perr = fmt.Sprintf("stream ends inside a line/frame: %.80q", pending)
 	}
 	data := pending
@@ -234,38 +413,62 @@ func runCase(res *mon.Result, c ccase) {
 	}
 	if perr != "" {
 		w["stream_tail"] = tailStr(data)
+		w["units_before"] = len(got)
 		res.Violate("stream-malformed", fmt.Sprintf("byte stream is not a sequence of complete lines/frames: %s", perr), w)
 		return
 	}
-	// every received unit must be a handed line, indexes strictly increasing
-	last := -1
+	// every received unit must be a handed line, indexes strictly increasing (per dispatcher)
+	last := make([]int, ndisp)
+	for who := range last {
+		last[who] = -1
+	}
 	for n, g := range got {
-		name := g
+		name := g.name
 		if !c.Pickle {
-			sp := bytes.IndexByte(g, ' ')
+			sp := bytes.IndexByte(name, ' ')
 			if sp < 0 {
-				sp = len(g)
+				sp = len(name)
 			}
-			name = g[:sp]
+			name = name[:sp]
 		}
 		i, ok := index[string(name)]
-		if !ok || (!c.Pickle && !bytes.Equal(g, handed[i])) {
+		if !ok {
 			w["received_unit"] = n
-			w["bytes"] = fmt.Sprintf("%.200q", g)
+			w["bytes"] = fmt.Sprintf("%.200q", g.name)
+			if sm := lineName.FindSubmatch(name); sm != nil && string(sm[1]) != strconv.Itoa(c.Index) {
+				w["foreign_index"] = string(sm[1])
+				res.Violate("foreign-line", fmt.Sprintf("received unit #%d is a line that was handed to another destination (case index %s), not to this one", n, sm[1]), w)
+				return
+			}
 			res.Violate("torn-or-merged", fmt.Sprintf("received unit #%d is not one of the handed-off lines (torn, merged or altered)", n), w)
 			return
 		}
-		if i == last {
+		if !c.Pickle && !bytes.Equal(g.name, handed[i]) {
+			w["received_unit"] = n
+			w["bytes"] = fmt.Sprintf("%.200q", g.name)
+			res.Violate("torn-or-merged", fmt.Sprintf("received unit #%d is not one of the handed-off lines (torn, merged or altered)", n), w)
+			return
+		}
+		if c.Pickle && (g.ts != int64(1500000000+i) || g.val != float64(i)) {
+			// mkLine: value i, timestamp 1500000000+i
+			w["received_unit"] = n
+			w["line"] = i
+			w["frame_ts"], w["frame_val"] = g.ts, g.val
+			res.Violate("torn-or-merged", fmt.Sprintf("received frame #%d has the name of line #%d but timestamp %d value %v (altered)", n, i, g.ts, g.val), w)
+			return
+		}
+		who := i % ndisp
+		if i == last[who] {
 			w["line"] = i
 			res.Violate("duplicated", fmt.Sprintf("line #%d received twice on a healthy connection", i), w)
 			return
 		}
-		if i < last {
+		if i < last[who] {
 			w["line"] = i
-			res.Violate("reordered", fmt.Sprintf("line #%d received after line #%d", i, last), w)
+			res.Violate("reordered", fmt.Sprintf("line #%d received after line #%d (handed off in that order by one goroutine)", i, last[who]), w)
 			return
 		}
-		last = i
+		last[who] = i
 	}
 	slow := d.Get(mon.KeyDestDropSlowConn(dkey))
 	out := d.Get(mon.KeyDestOut(dkey))
@@ -274,6 +477,17 @@ func runCase(res *mon.Result, c ccase) {
 	res.Count("lines_received", len(got))
 	res.Count("lines_dropped_slow_conn", int(slow))
 	res.Count("bytes_received", nbytes)
+	if c.Group > 0 {
+		res.Count("group_destinations", 1)
+		if c.Pickle {
+			res.Count("group_pickle_destinations", 1)
+		}
+		res.Count("group_lines_received", len(got))
+	}
+	if !done && idle < idleSteps {
+		res.Inconclusive(fmt.Sprintf("case %d: the stream was still arriving when the step budget ended (%d of %d lines received, %d dropped)", c.Index, len(got), len(handed), slow))
+		return
+	}
 	if !done || int64(len(handed)-len(got)) != slow || other != 0 {
 		w["handed"], w["received"], w["slow_conn"], w["other_drops"] = len(handed), len(got), slow, other
 		res.Violate("uncounted-loss", fmt.Sprintf("handed %d, received %d, slow_conn drops %d (other drop counters %d): %d lines unaccounted for", len(handed), len(got), slow, other, int64(len(handed)-len(got))-slow), w)
@@ -285,9 +499,20 @@ func runCase(res *mon.Result, c ccase) {
 		return
 	}
 	if len(got)*2 >= len(handed) {
-		res.NonTrivial(fmt.Sprintf("%d/%d/%d/%v/%s", c.IoBuf, c.ConnBuf, c.Flush, c.Pickle, c.Pattern))
+		sig := fmt.Sprintf("%d/%d/%d/%v/%s", c.IoBuf, c.ConnBuf, c.Flush, c.Pickle, c.Pattern)
+		if c.Group > 0 {
+			sig += fmt.Sprintf("/group-of-%d/%d", len(c.Members), ndisp)
+		}
+		res.NonTrivial(sig)
 	}
 }
+
+// idleSteps: so many quiescence steps (flush, look, 2 ms) in a row without a byte arriving or a drop being counted
+// end the wait for the rest of the stream.
+const idleSteps = 4000
+
+// lineName: the name of a line of this check (case index, line number, optional padding)
+var lineName = regexp.MustCompile(`^c05\.(\d+)\.n\d+(\.x+)?$`)
 
 func tailStr(b []byte) string {
 	if len(b) > 300 {
@@ -296,10 +521,17 @@ func tailStr(b []byte) string {
 	return fmt.Sprintf("%q", b)
 }
 
+// unit is one received line (name = the whole line, without newline) or one pickle frame (name, timestamp, value).
+type unit struct {
+	name []byte
+	ts   int64
+	val  float64
+}
+
 // parse splits the stream into complete lines (without newline) or, in pickle
-// mode, into the metric names carried by complete frames; used = bytes consumed
+// mode, into the datapoints carried by complete frames; used = bytes consumed
 // (a trailing partial unit is left for the next call).
-func parse(data []byte, pickle bool) (units [][]byte, used int, err string) {
+func parse(data []byte, pickle bool) (units []unit, used int, err string) {
 	if !pickle {
 		for {
 			nl := bytes.IndexByte(data[used:], '\n')
@@ -309,7 +541,7 @@ func parse(data []byte, pickle bool) (units [][]byte, used int, err string) {
 			if nl == 0 {
 				return units, used, "empty line (doubled newline)"
 			}
-			units = append(units, data[used:used+nl])
+			units = append(units, unit{name: data[used : used+nl]})
 			used += nl + 1
 		}
 	}
@@ -320,14 +552,23 @@ func parse(data []byte, pickle bool) (units [][]byte, used int, err string) {
 		}
 		n := int(binary.BigEndian.Uint32(rest))
 		if n > 1<<24 {
-			return units, used, fmt.Sprintf("implausible frame length %d", n)
+			return units, used, fmt.Sprintf("implausible frame length %d (header % x)", n, rest[:4])
 		}
 		if len(rest) < 4+n {
 			return units, used, ""
 		}
-		v, e := ogorek.NewDecoder(bytes.NewReader(rest[4 : 4+n])).Decode()
+		if u, ok := plainFrame(rest[4 : 4+n]); ok {
+			units = append(units, u)
+			used += 4 + n
+			continue
+		}
+		dec := ogorek.NewDecoder(bytes.NewReader(rest[4 : 4+n]))
+		v, e := dec.Decode()
 		if e != nil {
-			return units, used, "frame does not unpickle: " + e.Error()
+			return units, used, fmt.Sprintf("frame does not unpickle: %s: %.120q", e.Error(), rest[:4+n])
+		}
+		if _, e := dec.Decode(); e != io.EOF {
+			return units, used, fmt.Sprintf("the pickle ends before its frame of %d bytes does (bytes follow the STOP opcode): %.120q", n, rest[:4+n])
 		}
 		l, ok := v.([]interface{})
 		if !ok || len(l) != 1 {
@@ -341,9 +582,50 @@ func parse(data []byte, pickle bool) (units [][]byte, used int, err string) {
 		if !ok {
 			return units, used, "frame item name is not a string"
 		}
-		units = append(units, []byte(name))
+		tv, ok := tup[1].(ogorek.Tuple)
+		if !ok || len(tv) != 2 {
+			return units, used, "frame item has no (timestamp, value) 2-tuple"
+		}
+		ts, ok1 := tv[0].(int64)
+		val, ok2 := tv[1].(float64)
+		if !ok1 || !ok2 {
+			return units, used, fmt.Sprintf("frame item (timestamp, value) is (%T, %T), not (integer, float)", tv[0], tv[1])
+		}
+		units = append(units, unit{name: []byte(name), ts: ts, val: val})
 		used += 4 + n
 	}
+}
+
+// plainFrame reads a pickle that is exactly the opcode sequence EMPTY_LIST MARK MARK SHORT_BINSTRING|BINSTRING name
+// MARK BININT ts BINFLOAT val TUPLE TUPLE APPENDS STOP, i.e. [(name, (ts, val))], without the general decoder (which
+// allocates several kB per frame); any other payload is left to the general decoder.
+func plainFrame(p []byte) (unit, bool) {
+	if len(p) < 5 || p[0] != ']' || p[1] != '(' || p[2] != '(' {
+		return unit{}, false
+	}
+	var nameLen, at int
+	switch p[3] {
+	case 'U':
+		nameLen, at = int(p[4]), 5
+	case 'T':
+		if len(p) < 8 {
+			return unit{}, false
+		}
+		nameLen, at = int(binary.LittleEndian.Uint32(p[4:8])), 8
+	default:
+		return unit{}, false
+	}
+	if nameLen < 0 || len(p) != at+nameLen+1+5+9+4 {
+		return unit{}, false
+	}
+	name := p[at : at+nameLen]
+	q := p[at+nameLen:]
+	if q[0] != '(' || q[1] != 'J' || q[6] != 'G' || q[15] != 't' || q[16] != 't' || q[17] != 'e' || q[18] != '.' {
+		return unit{}, false
+	}
+	ts := int64(int32(binary.LittleEndian.Uint32(q[2:6])))
+	val := math.Float64frombits(binary.BigEndian.Uint64(q[7:15]))
+	return unit{name: name, ts: ts, val: val}, true
 }
 
 func main() {
@@ -353,9 +635,49 @@ func main() {
 		defer pprof.StopCPUProfile()
 	}
 	res := mon.NewResult("C05")
-	res.Rule = "configurations generated from (seed,index): iobuf in {1,2,3,5,16,64,100,4096,65536,2000000}, connbuf in {1,8,1000,30000}, flush in {1,10,100}ms, pickle 1/4, line lengths 5B..4x iobuf (cap 9000) biased to the buffer size, hand-off pattern burst/trickle/mixed, every 8th case a stall (1 kB lines, the endpoint stops reading for 0.3-0.8 s mid-stream with a small receive buffer, then resumes on the same connection); non-trivial = at least half of the handed lines were received and checked; distinct = (iobuf,connbuf,flush,pickle,pattern)"
-	res.Assume("the loopback endpoint reads as fast as it can (healthy); a run in which the connection was re-established is set aside as inconclusive")
-	res.Assume("pickle frames are decoded with the og-rek dependency here; CPython decoding is C16")
+	res.Rule = "configurations generated from (seed,index): iobuf in {1,2,3,5,16,64,100,4096,65536,2000000}, connbuf in {1,8,1000,30000}, flush in {1,10,100}ms, pickle 1/4, line lengths 5B..4x iobuf (cap 9000) biased to the buffer size, hand-off pattern burst/trickle/mixed, every 8th case a stall (1 kB lines, the endpoint stops reading for 0.3-0.8 s mid-stream with a small receive buffer, then resumes on the same connection); group cases (run first, one group at a time, generated from (seed,group)): 3-6 destinations active at the same time in the process, each with its own table, route, endpoint and 1-2 dispatcher goroutines (line i by goroutine i mod n; order is demanded per goroutine), pickle for the first two and 2/3 of the others, iobuf in {24,48,64,100,150,256,512}, connbuf in {2000,30000}, line lengths up to 2x iobuf (60..400), GOMAXPROCS in {2,3,4} while the group runs, 3 of 4 endpoints with SO_RCVBUF 4-16 kB stop reading for 1-25 ms (rounded up by the 20 ms poll of the endpoint) every 5-40 ms until their stream is complete; each stream is held to the same oracle for its own lines, pickle frames also to the timestamp and value of the line; non-trivial = at least half of the handed lines were received and checked; distinct = (iobuf,connbuf,flush,pickle,pattern[,group size,dispatchers])"
+	res.Assume("the loopback endpoint reads as fast as it can, apart from the scripted pauses during which it keeps the connection open (healthy); a run in which the connection was re-established is set aside as inconclusive")
+	res.Assume("pickle frames are decoded with the og-rek dependency here (frames that are exactly the opcode sequence of [(name,(ts,val))] by a direct reader); CPython decoding is C16")
+	res.Assume("a probe line of the online test that reaches the endpoint only after the baseline was taken is skipped at the head of the stream")
+	only := os.Getenv("VERIF_ONLY")
+	// group cases first, one group at a time: all its destinations run concurrently
+	ng := mon.N(8, 84)
+	grun := 0
+	for g := 0; g < ng; g++ {
+		if !mon.Mine(g) {
+			continue
+		}
+		cs := genGroup(g)
+		if only != "" {
+			o, _ := strconv.Atoi(only)
+			if o < cs[0].Index || o >= cs[0].Index+groupStride {
+				continue
+			}
+		}
+		grun++
+		res.Count("group_cases", 1)
+		if grun == 1 {
+			res.Sample(cs)
+		}
+		gt0 := time.Now()
+		// few processors: the goroutines of the destinations take turns on the same ones
+		procs0 := runtime.GOMAXPROCS(cs[0].Procs)
+		b := &barrier{}
+		b.wg.Add(len(cs))
+		var gw sync.WaitGroup
+		for _, c := range cs {
+			res.LogCase("group case %+v", c)
+			gw.Add(1)
+			go func(c ccase) {
+				defer gw.Done()
+				runCase(res, c, &member{b: b})
+				res.Eval(1)
+			}(c)
+		}
+		gw.Wait()
+		runtime.GOMAXPROCS(procs0)
+		fmt.Printf("group %d: %d destinations, %.1fs\n", g, len(cs), time.Since(gt0).Seconds())
+	}
 	n := mon.N(48, 800)
 	var wg sync.WaitGroup
 	sem := make(chan struct{}, 2)
@@ -364,7 +686,7 @@ func main() {
 		if !mon.Mine(i) {
 			continue
 		}
-		if o := os.Getenv("VERIF_ONLY"); o != "" && o != fmt.Sprint(i) {
+		if only != "" && only != fmt.Sprint(i) {
 			continue
 		}
 		c := gen(i)
@@ -377,13 +699,16 @@ func main() {
 		sem <- struct{}{}
 		go func() {
 			defer wg.Done()
-			runCase(res, c)
+			runCase(res, c, nil)
 			res.Eval(1)
 			<-sem
 		}()
 	}
 	wg.Wait()
 	res.Floor("cases", ran, n)
+	res.Floor("group_cases", grun, ng)
+	grcv, _ := res.Extra["group_lines_received"].(int)
+	res.Floor("group_lines_received", grcv, ng*3*1000)
 	rcv, _ := res.Extra["lines_received"].(int)
 	res.Floor("lines_received", rcv, n*100)
 	res.Write()
